@@ -21,8 +21,8 @@ import vlib
 
 PROP_FILE = "Props/Properties_C19.v"
 WRAPS = ("open", "opendir", "readdir", "closedir", "mkdir", "rmdir", "unlink", "rename", "stat", "fstat", "fopen",
-         "read", "write", "close", "strftime", "compress", "uncompress", "rfbCloseClient", "creat", "utime")
-MARK = ("cfg", "msg", "chunk", "gone", "tight")
+         "read", "write", "close", "strftime", "compress", "uncompress", "rfbCloseClient", "creat", "utime", "getpwuid")
+MARK = ("cfg", "msg", "chunk", "gone", "tight", "targs")
 MAX_PATH = 260
 
 # content types / params (rfbproto.h; the model takes them from Gen/Consts_C19.v)
@@ -266,6 +266,27 @@ def gen_cases(ctx, root):
             a = rng.choice(tpaths[:11] + [outside, b"/up.bin", b"/sub/n"]) if k in ("list", "mkdir", "download", "upload") else rng.choice([b"", b"x", b"data"])
             sq.append((k, a))
         add("tight-seq", dict(permit=0, cb="none", home="sb"), [("tight", 1, 0, "/dir1", sq)])
+    # H. the extension's command-line options in every order x passwd home usable / absent / unusable
+    import itertools
+    atoms = [[b"-disablefiletransfer"], [b"-ftproot", b"@/dir1"], [b"-ftproot", b"/nonexistent-root"], [b"-ftproot", b"@/file.txt"],
+             [b"-foo"], [b"-ftproot", b"@/dir1/sub/"], [b"-ftproot"], [b"-ftproot", b"-disablefiletransfer"]]
+    combos = []
+    for k in (1, 2, 3):
+        for perm in itertools.permutations(range(len(atoms)), k):
+            combos.append(perm)
+    for perm in combos:
+        if atoms[perm[-1]] == [b"-ftproot"] or len(perm) == 1 or True:
+            pass
+        if quick and len(perm) == 3 and rng.random() < 0.75:
+            continue
+        args = [x for i in perm for x in atoms[i]]
+        for pw in ("ok", "none", "bad"):
+            if quick and pw != "bad" and rng.random() < 0.5:
+                continue
+            en_s, root_s = spec_tight_args(sb.encode(), pw, args)
+            # never let the harness write outside the sandbox: without a root inside it only a harmless listing is requested
+            msgs = [("mkdir", b"/made_by_client"), ("list", b"/")] if (root_s or b"").startswith(sb.encode()) else [("list", b"/nonexistent-dir-x")]
+            add("tight-args", dict(permit=0, cb="none", home="sb"), [("targs", pw, args), ("tight", "keep", 0, "", msgs)])
     return cases
 
 
@@ -276,7 +297,9 @@ def case_lines(k, case):
         if op[0] == "msg":
             L.append("msg %s%s" % (hx(op[1]), " eof" if op[2] else ""))
         elif op[0] == "tight":
-            L.append("tight %d %d %s %s" % (op[1], op[2], hx(op[3].encode()), " ".join("%s %s" % (k, hx(a)) for k, a in op[4])))
+            L.append("tight %s %d %s %s" % (op[1], op[2], hx(op[3].encode()), " ".join("%s %s" % (k, hx(a)) for k, a in op[4])))
+        elif op[0] == "targs":
+            L.append("targs %s %s" % (op[1], " ".join(hx(a) for a in op[2])))
         else:
             L.append(op[0])
     return L
@@ -295,7 +318,9 @@ def parse_case_lines(lines):
             ops.append(("msg", unhx(q[1]) if len(q) > 1 else b"", len(q) > 2 and q[2] == "eof"))
         elif q[0] == "tight":
             rest = [t for t in q[4:] if not t.startswith("creat:")]
-            ops.append(("tight", int(q[1]), int(q[2]), unhx(q[3]).decode("latin-1"), [(rest[i], unhx(rest[i + 1])) for i in range(0, len(rest) - 1, 2)]))
+            ops.append(("tight", q[1] if q[1] == "keep" else int(q[1]), int(q[2]), unhx(q[3]).decode("latin-1"), [(rest[i], unhx(rest[i + 1])) for i in range(0, len(rest) - 1, 2)]))
+        elif q[0] == "targs":
+            ops.append(("targs", q[1], [unhx(a) for a in q[2:]]))
         else:
             ops.append((q[0],))
     return dict(cls=hdr[2] if len(hdr) > 2 else "corpus", cfg=cfg, ops=ops)
@@ -348,7 +373,7 @@ def tight_msgs(block):
         if l.startswith("m "):
             cur, dirs = [], []
             out.append(cur)
-        elif cur is not None and l == "dead":
+        elif cur is not None and l in ("dead", "skipped"):
             out[-1] = None          # the connection was closed by an earlier message: nothing is handled any more
             cur = None
         elif cur is not None and l.startswith("fs ") and l.split()[1] in TIGHT_OPS and len(l.split()) > 2:
@@ -441,6 +466,31 @@ def named_paths(msg):
     return []
 
 
+def spec_tight_args(sbpath, pw, args):
+    """documented meaning of the extension's options: -disablefiletransfer switches transfer off for good,
+    -ftproot DIR (an existing directory) sets the root, default root = the server user's home directory.
+    -> (enabled, root or None when no usable root)"""
+    def real(a):
+        return sbpath + a[1:] if a[:1] == b"@" else a
+    enabled, root = True, None
+    home = {"ok": sbpath, "none": None, "bad": b"/nonexistent-home-dir", "empty": b""}[pw]
+    if home and os.path.isdir(home):
+        root = home.rstrip(b"/") if len(home) > 1 else home
+    i = 0
+    while i < len(args):
+        a = real(args[i])
+        if a == b"-ftproot" and i + 1 < len(args):
+            d = real(args[i + 1])
+            if 0 < len(d) <= 4095 and os.path.isdir(d):
+                root = d[:-1] if d.endswith(b"/") else d
+                i += 2
+                continue
+        elif a == b"-disablefiletransfer":
+            enabled = False
+        i += 1
+    return enabled, root
+
+
 class CbTracker:
     """spec-level view of the callback oracle: which answer comes next"""
     def __init__(self, cb):
@@ -463,6 +513,7 @@ def oracle_case(env, case, iblocks):
     home = None if cfg["home"] == "none" else ((env["root"] + "/sb").encode() if cfg["home"] == "sb" else unhx(cfg["home"]))
     cb = CbTracker(cfg["cb"])
     alive = True
+    tight_spec = (True, None)
     for j, op in enumerate(case["ops"]):
         blk = iblocks[j + 1] if j + 1 < len(iblocks) else None
         feat = dict(op=op[0], permit=cfg["permit"], cb=("none" if cfg["cb"] == "none" else ("flip" if ("0" in cfg["cb"] and "1" in cfg["cb"]) else cfg["cb"][0])))
@@ -470,9 +521,31 @@ def oracle_case(env, case, iblocks):
             break
         crash = [l for l in blk if l.startswith("crash")]
         body = blk[1:]
+        if op[0] == "targs":
+            sbp = (env["root"] + "/sb").encode()
+            en_s, root_s = spec_tight_args(sbp, op[1], op[2])
+            tight_spec = (en_s, root_s)
+            ti = [l for l in body if l.startswith("tinit ")]
+            feat.update(pw=op[1], disabled_given=int(not en_s))
+            if crash or not ti:
+                fails.append((j, "processing the extension's command-line options: %s" % (crash[0] if crash else "no state reported"), dict(feat, kind="crash")))
+                break
+            q = ti[0].split()
+            got_en = q[1] == "enabled=1"
+            got_root = (sbp if q[2] == "root=@" else b"") + unhx(q[3])
+            if got_en and not en_s:
+                fails.append((j, "-disablefiletransfer was given, yet the TightVNC file transfer is enabled after the command line %r (home directory: %s)" %
+                              ([a[:40] for a in op[2]], op[1]), dict(feat, kind="tight-reenabled")))
+            elif root_s is not None and got_root != root_s:
+                fails.append((j, "transfer root is %r, the last valid -ftproot / home directory given is %r" % (got_root[-60:], root_s[-60:]), dict(feat, kind="tight-root")))
+            continue
         if op[0] == "tight":
             en, vo, suf, sq = op[1:]
             ftproot = (env["root"] + "/sb" + suf).encode()
+            if en == "keep":
+                en = int(tight_spec[0])
+                # no usable home directory and no valid -ftproot: the extension's root is "" (the whole file system)
+                ftproot = tight_spec[1] if tight_spec[1] is not None else b"/"
             pathops = [l.split() for l in body if l.startswith("fs ") and l.split()[1] in PATH_OPS + ("creat", "utime") and len(l.split()) > 2
                        and l.split()[2] != "-"]          # an empty name names no file (the call fails with ENOENT)
             feat.update(enabled=en, viewonly=vo)
@@ -488,7 +561,7 @@ def oracle_case(env, case, iblocks):
                     p = unhx(po[2])
                     real = os.path.realpath(p)
                     base = os.path.realpath(ftproot)
-                    if not (real == base or real.startswith(base + b"/")):
+                    if not (real == base or real.startswith(base.rstrip(b"/") + b"/")):
                         fails.append((j, "TightVNC extension: '%s' on %r, outside the transfer root %r (messages %r)" %
                                       (po[1], p, ftproot, [(k, a[:60]) for k, a in sq]), dict(feat, kind="tight-escape", fsop=po[1])))
                         break
@@ -592,6 +665,11 @@ def compare_case(env, case, il, ml):
         impl = ib[j + 1] if j + 1 < len(ib) else ["<missing>"]
         mod = mb[j + 1] if j + 1 < len(mb) else ["<missing>"]
         crash = [l for l in impl if l.startswith("crash")]
+        if op[0] == "targs":
+            if impl != mod and not crash and mism is None:
+                d = vlib.first_diff(impl, mod)
+                mism = (j, "targs: impl '%s' / model '%s'" % (d[1][:120], d[2][:120]))
+            continue
         if op[0] == "tight":
             im = tight_msgs(impl)
             mt, ma = tight_model_msgs(mod)
